@@ -27,6 +27,8 @@ var (
 
 	ErrTestActionExecute = errors.New("test action execute error")
 	ErrEmptyTestAction   = errors.New("cannot unmarshal empty bytes as test action")
+
+	ErrTrailingTestActionBytes = errors.New("cannot unmarshal test action with trailing bytes")
 )
 
 type TestAction struct {
@@ -102,11 +104,14 @@ func UnmarshalTestAction(b []byte) (chain.Action, error) {
 		return nil, fmt.Errorf("unexpected test action typeID: %d != %d", b[0], TestActionID)
 	}
 
-	if err := codec.LinearCodec.UnmarshalFrom(
-		&wrappers.Packer{Bytes: b[1:]},
-		t,
-	); err != nil {
+	p := &wrappers.Packer{Bytes: b[1:]}
+	if err := codec.LinearCodec.UnmarshalFrom(p, t); err != nil {
 		return nil, err
+	}
+	// Reject trailing bytes, so that every accepted encoding is the one
+	// produced by [TestAction.Bytes]
+	if p.Offset != len(p.Bytes) {
+		return nil, fmt.Errorf("%w: %d trailing bytes", ErrTrailingTestActionBytes, len(p.Bytes)-p.Offset)
 	}
 	return t, nil
 }
